@@ -48,10 +48,11 @@ SizeOf(ins, arg) == IF ins[5] > 0 THEN ins[5] ELSE InstrSize(arg)
 (***************************************************************************)
 EmptyFA == [i2a |-> EmptyFn, a2i |-> EmptyFn, exc |-> ""]
 
-\* __setitem__: an occupied slot must hold a ==-equal value (assert), then it is overwritten
+\* __setitem__: an occupied slot must hold the same entry (same key), else ValueError
+\* ("fix:" commit for C03; km[t][2], the class under Python's ==, is no longer consulted)
 SetItem(fa, i, tok, km) ==
     IF fa.exc # "" THEN fa
-    ELSE IF i \in DOMAIN fa.i2a /\ km[fa.i2a[i]][2] # km[tok][2] THEN [fa EXCEPT !.exc = "AssertionError"]
+    ELSE IF i \in DOMAIN fa.i2a /\ km[fa.i2a[i]][1] # km[tok][1] THEN [fa EXCEPT !.exc = "ValueError"]
     ELSE [fa EXCEPT !.i2a = Put(fa.i2a, i, tok), !.a2i = Put(fa.a2i, km[tok][1], i)]
 
 \* add(value, index_override) -> <<fa', index>>
@@ -60,7 +61,8 @@ Add(fa, tok, ovr, km) ==
     ELSE IF km[tok][1] \in DOMAIN fa.a2i THEN <<fa, fa.a2i[km[tok][1]]>>
     ELSE LET idx == Cardinality(DOMAIN fa.i2a) IN <<SetItem(fa, idx, tok, km), idx>>
 
-\* to_tuple: the values in index order -- gaps are silently closed
+\* to_tuple: the values in index order; indices that leave a gap raise ValueError (HasGap)
+HasGap(fa) == DOMAIN fa.i2a # 0..(Cardinality(DOMAIN fa.i2a) - 1)
 ToTuple(fa) ==
     LET idxs == SetToSortSeq(DOMAIN fa.i2a, <) IN [j \in DOMAIN idxs |-> fa.i2a[idxs[j]]]
 
@@ -194,6 +196,7 @@ Encode(d, ver, km, strToks, noneTok, bound) ==
         exc == IF a0.t.exc # "" THEN a0.t.exc
                ELSE IF rl.exc # "" THEN rl.exc
                ELSE IF t1.exc # "" THEN t1.exc
+               ELSE IF HasGap(t1.names) \/ HasGap(t1.varnames) \/ HasGap(t1.cellvars) \/ HasGap(t1.consts) THEN "ValueError"
                ELSE IF d.is_fn /\ SubSeq(varnames, 1, Len(h.params)) # h.params THEN "AssertionError"
                ELSE IF ~lt /\ noneLine THEN "TypeError"
                ELSE h.exc
